@@ -27,7 +27,8 @@ CONSTANTS
   Level,        \* size of the step alphabet: 1 tiny (exhaustive), 2 rich (simulation)
   GenBad,       \* also generate steps that break a construction rule (C26)
   SampleK,      \* 0: take every candidate step; k > 0: RandomSubset(k, candidates) per state
-  Focus         \* step families to generate: subset of FocusAll
+  Focus,        \* step families to generate: subset of FocusAll
+  EmitOneIn     \* emit (print) one in EmitOneIn of the complete behaviours, chosen at random; 1 = all
 
 VARIABLES phase, inp, prog, stack, prev, astack, hist, ahist
 vars == <<phase, inp, prog, stack, prev, astack, hist, ahist>>
@@ -312,7 +313,8 @@ Spec == Init /\ [][Next]_vars
 
 \* ------------------------------------------------------------------ emission (spec -> code)
 Case == [inp |-> inp, prog |-> prog, hist |-> hist, alt |-> ahist, kinds |-> Kind]
-Emit == (phase = "prog" /\ Len(prog) = MaxSteps) => PrintT("CASE " \o ToJson(Case))
+Emit == (phase = "prog" /\ Len(prog) = MaxSteps /\ (EmitOneIn = 1 \/ RandomElement(1..EmitOneIn) = 1))
+          => PrintT("CASE " \o ToJson(Case))
 
 (***************************************************************************)
 (* Laws of the reference semantics, checked in every reachable state       *)
